@@ -7,6 +7,7 @@
   `floor(duration / hop)`, for which the property is refuted below.
 -/
 import Proofs.Lemmas.Segment
+import Proofs.Lemmas.History
 namespace SE.Proofs.C14
 open SE SE.Segment SE.Proofs.SegmentLemmas
 
@@ -335,5 +336,38 @@ example : (segmentClipFull fmtU "r" "p" 0 2 1 none false).toOption =
     some [⟨"r", 0, 1, "segment_clip:p:/c:a/c"⟩, ⟨"r", 1, 2, "segment_clip:p:a/c:aa/c"⟩] := by decide +kernel
 /-- the hypotheses of `C14_name_injective` / `C14_full` are satisfiable -/
 example : (∀ x y, fmtU x = fmtU y → x = y) ∧ (∀ x, ':' ∉ (fmtU x).toList) := ⟨fmtU_inj, fmtU_noColon⟩
+
+/-! ### Histories
+
+`segment_clip` is specified as a pure function of the clip's bounds and the three parameters.  The
+implementation runs in a process: a clip object can remember a duration computed earlier, a lattice
+can be cached between calls, a returned list can be shared.  The check therefore also runs *histories*
+(sequences of calls on fresh, reused-after-change and shared objects) and judges every step by
+`segmentClipOpt` alone; the theorem says this is exactly the right thing to do. -/
+
+/-- one call as the history operation sees it: bounds of the clip *as it is at that step*, parameters -/
+abbrev Call := Rat × Rat × Rat × Option Rat × Bool
+
+/-- the pure model of one call -/
+def callModel (c : Call) : Except Err (List (Rat × Rat)) :=
+  segmentClipOpt c.1 c.2.1 c.2.2.1 c.2.2.2.1 c.2.2.2.2
+
+/-- **Histories.**  Whatever state an implementation keeps between calls (`σ` is arbitrary), it returns
+    the model's segments at every step of every sequence of calls in one process iff no state reachable
+    by some sequence of calls changes the answer of any single call. -/
+theorem C14_history {σ : Type} (step : σ → Call → σ × Except Err (List (Rat × Rat))) (s0 : σ) :
+    SE.History.HistoryFree step s0 callModel ↔
+      ∀ calls : List Call, SE.History.runS step s0 calls = calls.map callModel :=
+  SE.History.historyFree_iff step s0 callModel
+
+/-- a duration remembered from the first use of a clip (seeded change C14-7) is not history free: the
+    second call, on the same clip object made longer, is answered for the old end -/
+example :
+    let step : Option Rat → Call → Option Rat × Except Err (List (Rat × Rat)) := fun memo c =>
+      let len := memo.getD (c.2.1 - c.1)          -- `cached_property`: the first duration sticks
+      (some len, segmentClipOpt c.1 (c.1 + len) c.2.2.1 c.2.2.2.1 c.2.2.2.2)
+    SE.History.runS step none [(4, 14, 2, none, false), (4, 24, 2, none, false)] ≠
+      [(4, 14, 2, none, false), (4, 24, 2, none, false)].map callModel := by
+  decide +kernel
 
 end SE.Proofs.C14
